@@ -862,13 +862,30 @@ Definition head_ok (c : N) : Prop := is_ws c = false /\ c <> 93 /\ c <> 125.
 Lemma head_ok_const c : is_ws c = false -> (c =? 93) = false -> (c =? 125) = false -> head_ok c.
 Proof. intros H1 H2 H3. apply N.eqb_neq in H2, H3. repeat split; assumption. Qed.
 
-Lemma enc_head ind lvl v : rt_domain v = true -> exists c t, enc ind lvl v = c :: t /\ head_ok c.
+Lemma float_token_shape t : float_token_ok t = true ->
+  exists c r, t = c :: r /\ (48 <= c <= 57 \/ c = 45) /\ forallb is_numchar t = true
+              /\ exists w, classify_number t = Ok w.
 Proof.
-  destruct v as [| [|] | z | t | s | [|x xs] | [|[k x] xs]]; intro Hd; try discriminate;
+  unfold float_token_ok. intro H. apply andb_true_iff in H as [H Hc]. apply andb_true_iff in H as [Hall Hh].
+  destruct t as [|c r]; [discriminate|]. exists c, r. split; [reflexivity|]. split.
+  - apply orb_true_iff in Hh as [Hh|Hh]; [left; apply is_digit_spec; exact Hh|right; apply N.eqb_eq; exact Hh].
+  - split.
+    + clear -Hall. induction (c :: r) as [|x l IH]; [reflexivity|]. cbn [forallb] in *.
+      apply andb_true_iff in Hall as [Hx Hl]. rewrite (IH Hl), andb_true_r. unfold is_numchar. exact Hx.
+    + destruct (classify_number (c :: r)) as [w|e]; [exists w; reflexivity|discriminate].
+Qed.
+
+Lemma enc_head ind lvl v : rt_domain_f v = true -> exists c t, enc ind lvl v = c :: t /\ head_ok c.
+Proof.
+  destruct v as [| [|] | z | t | s | [|x xs] | [|[k x] xs]]; intro Hd;
     try (eexists; eexists; split; [reflexivity|apply head_ok_const; reflexivity]).
-  destruct (dec_Z_shape z) as (c & t & He & Hc & _). exists c, t. split; [exact He|].
-  unfold head_ok, is_ws. repeat split; try lia.
-  repeat (apply orb_false_iff; split); apply N.eqb_neq; lia.
+  - destruct (dec_Z_shape z) as (c & t & He & Hc & _). exists c, t. split; [exact He|].
+    unfold head_ok, is_ws. repeat split; try lia.
+    repeat (apply orb_false_iff; split); apply N.eqb_neq; lia.
+  - cbn [rt_domain_f] in Hd. destruct (float_token_shape t Hd) as (c & r & -> & Hc & _).
+    exists c, r. split; [reflexivity|].
+    unfold head_ok, is_ws. repeat split; try lia.
+    repeat (apply orb_false_iff; split); apply N.eqb_neq; lia.
 Qed.
 
 Lemma no_num_head_nl ind lvl c rest : is_numchar c = false -> no_num_head (nl ind lvl ++ c :: rest).
@@ -890,14 +907,14 @@ Proof.
 Qed.
 
 Definition reads_back (f : nat) (ind : N) (lvl : nat) (v : jvalue) : Prop :=
-  forall rest, no_num_head rest -> parse_val f (enc ind lvl v ++ rest) = Some (v, rest).
+  forall rest, no_num_head rest -> parse_val f (enc ind lvl v ++ rest) = Some (reclass v, rest).
 
 Lemma elems_ok f ind lvl rest : forall xs x acc n w,
   forallb is_ws w = true -> (length xs < n)%nat ->
   Forall (reads_back f ind (S lvl)) (x :: xs) ->
   elems_loop (parse_val f) n
     (w ++ enc ind (S lvl) x ++ arr_tail ind lvl xs ++ nl ind lvl ++ 93 :: rest) acc
-  = Some (JArr (rev acc ++ x :: xs), rest).
+  = Some (JArr (rev acc ++ map reclass (x :: xs)), rest).
 Proof.
   induction xs as [|y ys IH]; intros x acc n w Hw Hn Hall; (destruct n as [|n']; [cbn in Hn; lia|]);
     inversion Hall as [|? ? Hx Hxs]; subst; cbn [elems_loop].
@@ -913,8 +930,8 @@ Proof.
     rewrite arr_tail_cons. cbn [app]. rewrite <- !app_assoc.
     rewrite (Hx (44 :: _)) by reflexivity.
     rewrite skip_ws_head by reflexivity. change (44 =? 44) with true. cbv iota.
-    rewrite (IH y (x :: acc) n' (nl ind (S lvl)) (wsb_nl _ _) ltac:(cbn in Hn; lia) Hxs).
-    cbn [rev]. rewrite <- app_assoc. reflexivity.
+    rewrite (IH y (reclass x :: acc) n' (nl ind (S lvl)) (wsb_nl _ _) ltac:(cbn in Hn; lia) Hxs).
+    cbn [rev map]. rewrite <- app_assoc. reflexivity.
 Qed.
 
 Lemma colon_shape ind : exists w, forallb is_ws w = true /\ colon ind = 58 :: w.
@@ -926,7 +943,7 @@ Lemma members_ok f ind lvl rest : forall xs k x acc n w,
   Forall (reads_back f ind (S lvl)) (x :: map snd xs) ->
   members_loop (parse_val f) n
     (w ++ enc_string k ++ colon ind ++ enc ind (S lvl) x ++ obj_tail ind lvl xs ++ nl ind lvl ++ 125 :: rest) acc
-  = Some (JObj (rev acc ++ (k, x) :: xs), rest).
+  = Some (JObj (rev acc ++ map (fun kv => match kv with (k, x) => (k, reclass x) end) ((k, x) :: xs)), rest).
 Proof.
   induction xs as [|[k' y] ys IH]; intros k x acc n w Hw Hn Hk Hks Hall; (destruct n as [|n']; [cbn in Hn; lia|]);
     inversion Hall as [|? ? Hx Hxs]; subst; cbn [members_loop];
@@ -948,30 +965,33 @@ Proof.
     rewrite (Hx (44 :: _)) by reflexivity.
     rewrite skip_ws_head by reflexivity. change (44 =? 44) with true. cbv iota.
     inversion Hks as [|? ? Hk' Hks']; subst. cbn [fst] in Hk'. cbn [map snd] in Hxs.
-    rewrite (IH k' y ((k, x) :: acc) n' (nl ind (S lvl)) (wsb_nl _ _) ltac:(cbn in Hn; lia) Hk' Hks' Hxs).
-    cbn [rev]. rewrite <- app_assoc. reflexivity.
+    rewrite (IH k' y ((k, reclass x) :: acc) n' (nl ind (S lvl)) (wsb_nl _ _) ltac:(cbn in Hn; lia) Hk' Hks' Hxs).
+    cbn [rev map]. rewrite <- app_assoc. reflexivity.
 Qed.
 
 Lemma read_back : forall v ind lvl fuel,
-  (need v <= fuel)%nat -> rt_domain v = true -> reads_back fuel ind lvl v.
+  (need v <= fuel)%nat -> rt_domain_f v = true -> reads_back fuel ind lvl v.
 Proof.
   induction v as [| b | z | t | s | l IH | m IH] using jvalue_ind';
     intros ind lvl fuel Hfuel Hdom rest Hrest; (destruct fuel as [|f]; [cbn in Hfuel; lia|]).
   - apply pv_null.
   - destruct b; [apply pv_true|apply pv_false].
-  - cbn [enc rt_domain] in *. apply andb_true_iff in Hdom as [Hd1 Hd2]. apply Z.leb_le in Hd1. apply Z.ltb_lt in Hd2.
+  - cbn [enc rt_domain_f] in *. apply andb_true_iff in Hdom as [Hd1 Hd2]. apply Z.leb_le in Hd1. apply Z.ltb_lt in Hd2.
     assert (Hdom : (- Z.of_N two63 <= z < Z.of_N two63)%Z) by lia.
     destruct (dec_Z_shape z) as (c & t & He & Hc & Hall).
     rewrite He. cbn [app]. rewrite (pv_num f c _ Hc).
     change (c :: t ++ rest) with ((c :: t) ++ rest). rewrite <- He.
     rewrite (span_num_app _ _ Hall Hrest), (classify_dec_Z z Hdom). reflexivity.
-  - discriminate.
-  - cbn [enc rt_domain] in *. unfold enc_string. cbn [app]. rewrite pv_str, <- app_assoc.
+  - cbn [enc rt_domain_f reclass] in *. destruct (float_token_shape t Hdom) as (c & r & Et & Hc & Hall & w & Hw).
+    rewrite Et. cbn [app]. rewrite (pv_num f c _ Hc).
+    change (c :: r ++ rest) with ((c :: r) ++ rest). rewrite <- Et.
+    rewrite (span_num_app _ _ Hall Hrest), Hw. reflexivity.
+  - cbn [enc rt_domain_f] in *. unfold enc_string. cbn [app]. rewrite pv_str, <- app_assoc.
     cbn [app]. rewrite dec_enc_body, (valid_sanitize _ Hdom). reflexivity.
   - destruct l as [|x xs]; [reflexivity|].
     rewrite enc_arr_cons. cbn [app]. rewrite pv_arr, <- !app_assoc.
     rewrite (skip_ws_app_ws _ _ (wsb_nl ind (S lvl))).
-    cbn [rt_domain] in Hdom. pose proof Hdom as Hdom'.
+    cbn [rt_domain_f] in Hdom. pose proof Hdom as Hdom'.
     cbn [forallb] in Hdom'. apply andb_true_iff in Hdom' as [Hdx Hdxs].
     destruct (enc_head ind (S lvl) x Hdx) as (c & t & He & Hws & H93 & H125).
     rewrite He. cbn [app]. rewrite (skip_ws_head _ _ Hws).
@@ -987,7 +1007,7 @@ Proof.
   - destruct m as [|[k x] xs]; [reflexivity|].
     rewrite enc_obj_cons. cbn [app]. rewrite pv_obj, <- !app_assoc.
     rewrite (skip_ws_app_ws _ _ (wsb_nl ind (S lvl))).
-    cbn [rt_domain] in Hdom. pose proof Hdom as Hdom'.
+    cbn [rt_domain_f] in Hdom. pose proof Hdom as Hdom'.
     cbn [forallb fst snd] in Hdom'. apply andb_true_iff in Hdom' as [Hdx Hdxs].
     apply andb_true_iff in Hdx as [Hk Hdx].
     unfold enc_string at 1. cbn [app]. rewrite skip_ws_head by reflexivity.
@@ -1008,18 +1028,18 @@ Proof.
     exact (members_ok f ind lvl rest xs k x [] f [] eq_refl ltac:(cbn [length] in Hfuel; lia) Hk Hks Hall).
 Qed.
 
-Lemma need_le_length : forall v ind lvl, rt_domain v = true -> (need v <= length (enc ind lvl v))%nat.
+Lemma need_le_length : forall v ind lvl, rt_domain_f v = true -> (need v <= length (enc ind lvl v))%nat.
 Proof.
   induction v as [| b | z | t | s | l IH | m IH] using jvalue_ind'; intros ind lvl Hdom.
   - cbn. lia.
   - destruct b; cbn; lia.
   - cbn [need enc]. destruct (dec_Z_shape z) as (c & t & -> & _). cbn [length]. lia.
-  - discriminate.
+  - cbn [need enc rt_domain_f] in *. destruct (float_token_shape t Hdom) as (c & r & -> & _). cbn [length]. lia.
   - cbn [need enc]. unfold enc_string. cbn [length]. lia.
   - destruct l as [|x xs]; [cbn; lia|].
-    rewrite enc_arr_cons. cbn [need rt_domain] in *.
-    assert (H : forall ys, Forall (fun v => forall ind lvl, rt_domain v = true -> (need v <= length (enc ind lvl v))%nat) ys ->
-                forallb rt_domain ys = true ->
+    rewrite enc_arr_cons. cbn [need rt_domain_f] in *.
+    assert (H : forall ys, Forall (fun v => forall ind lvl, rt_domain_f v = true -> (need v <= length (enc ind lvl v))%nat) ys ->
+                forallb rt_domain_f ys = true ->
                 (length ys + fold_right (fun x a => (need x + a)%nat) 0%nat ys <= length (arr_tail ind lvl ys))%nat).
     { induction ys as [|y ys IHys]; intros Hall Hd; [cbn; lia|].
       inversion Hall as [|? ? Hy Hys]; subst. cbn [forallb] in Hd. apply andb_true_iff in Hd as [Hdy Hdys].
@@ -1029,9 +1049,9 @@ Proof.
     specialize (IHx ind (S lvl) Hdx). specialize (H xs IHxs Hdxs).
     cbn [length fold_right]. rewrite !app_length. cbn [length]. lia.
   - destruct m as [|[k x] xs]; [cbn; lia|].
-    rewrite enc_obj_cons. cbn [need rt_domain] in *.
-    assert (H : forall ys, Forall (fun kv => forall ind lvl, rt_domain (snd kv) = true -> (need (snd kv) <= length (enc ind lvl (snd kv)))%nat) ys ->
-                forallb (fun kv => valid_utf8 (fst kv) && rt_domain (snd kv)) ys = true ->
+    rewrite enc_obj_cons. cbn [need rt_domain_f] in *.
+    assert (H : forall ys, Forall (fun kv => forall ind lvl, rt_domain_f (snd kv) = true -> (need (snd kv) <= length (enc ind lvl (snd kv)))%nat) ys ->
+                forallb (fun kv => valid_utf8 (fst kv) && rt_domain_f (snd kv)) ys = true ->
                 (length ys + fold_right (fun kv a => match kv with (_, x) => (need x + a)%nat end) 0%nat ys <= length (obj_tail ind lvl ys))%nat).
     { induction ys as [|[k' y] ys IHys]; intros Hall Hd; [cbn; lia|].
       inversion Hall as [|? ? Hy Hys]; subst. cbn [forallb fst snd] in Hd. apply andb_true_iff in Hd as [Hdy Hdys].
@@ -1044,11 +1064,36 @@ Proof.
     cbn [length fold_right]. rewrite !app_length. cbn [length]. lia.
 Qed.
 
-Lemma decode_encode v ind : rt_domain v = true -> parse_json (enc_top ind v) = Ok v.
+Lemma decode_encode_f v ind : rt_domain_f v = true -> parse_json (enc_top ind v) = Ok (reclass v).
 Proof.
   intro Hdom. unfold parse_json, enc_top.
   rewrite (read_back v ind 0%nat _); [reflexivity| |exact Hdom|reflexivity].
   pose proof (need_le_length v ind 0%nat Hdom). rewrite app_length. lia.
+Qed.
+
+Lemma rt_domain_reclass : forall v, rt_domain v = true -> rt_domain_f v = true /\ reclass v = v.
+Proof.
+  induction v as [| b | z | t | s | l IH | m IH] using jvalue_ind'; intro H; try (split; [exact H|reflexivity]).
+  - discriminate.
+  - cbn [rt_domain rt_domain_f reclass] in *.
+    assert (forallb rt_domain_f l = true /\ map reclass l = l) as [H1 H2].
+    { induction IH as [|x xs Hx Hxs IHxs]; [split; reflexivity|].
+      cbn [forallb] in H. apply andb_true_iff in H as [Hx0 Hxs0].
+      destruct (Hx Hx0) as [A B]. destruct (IHxs Hxs0) as [C D]. cbn [forallb map]. rewrite A, B, C, D. split; reflexivity. }
+    rewrite H1, H2. split; reflexivity.
+  - cbn [rt_domain rt_domain_f reclass] in *.
+    assert (forallb (fun kv => valid_utf8 (fst kv) && rt_domain_f (snd kv)) m = true
+            /\ map (fun kv : str * jvalue => let (k, x) := kv in (k, reclass x)) m = m) as [H1 H2].
+    { induction IH as [|[k x] xs Hx Hxs IHxs]; [split; reflexivity|].
+      cbn [forallb fst snd] in H. apply andb_true_iff in H as [Hx0 Hxs0]. apply andb_true_iff in Hx0 as [Hk Hx0].
+      cbn [snd] in Hx. destruct (Hx Hx0) as [A B]. destruct (IHxs Hxs0) as [C D].
+      cbn [forallb map fst snd]. rewrite Hk, A, B, C, D. split; reflexivity. }
+    rewrite H1, H2. split; reflexivity.
+Qed.
+
+Lemma decode_encode v ind : rt_domain v = true -> parse_json (enc_top ind v) = Ok v.
+Proof.
+  intro Hdom. destruct (rt_domain_reclass v Hdom) as [Hf Hr]. rewrite (decode_encode_f v ind Hf), Hr. reflexivity.
 Qed.
 
 (* ------------------------------------------------------------------ *)
